@@ -300,9 +300,19 @@ Inductive seqkind := Tuple | PList.
 Definition seqkind_eqb (a b : seqkind) : bool :=
   match a, b with Tuple, Tuple | PList, PList => true | _, _ => false end.
 
+(* a python float / int stored in a fitness: a rational or one of the three non-finite floats.
+   json.dumps writes these as the tokens Infinity / -Infinity / NaN and json.loads reads them
+   back; a JSON tree shows them as the reserved strings below (the harness maps every
+   non-finite float - also inside params and metadata - to these strings, so nan equals nan
+   and infinities are compared by sign) *)
+Inductive fnum := Fin (q : Q) | PInf | NInf | FNaN.
+Definition tok_inf := "#Infinity#".
+Definition tok_ninf := "#-Infinity#".
+Definition tok_nan := "#NaN#".
+
 Inductive fitness :=
-| FSingle (k : seqkind) (vals : list (option Q))            (* SingleObjFitness._values *)
-| FMulti (kw kv : seqkind) (weights wvalues : list Q).       (* MultiObjFitness._weights, .wvalues *)
+| FSingle (k : seqkind) (vals : list (option fnum))          (* SingleObjFitness._values *)
+| FMulti (kw kv : seqkind) (weights wvalues : list fnum).    (* MultiObjFitness._weights, .wvalues *)
 
 (* an entry of ParentOperator.parent_individuals: a live Individual (only its uid is read by
    the encoder), a bare uid string (what a decoded operator holds) or None *)
@@ -324,12 +334,23 @@ Record individual := mkInd {
   i_uid : string
 }.
 
-Definition jopt_num (o : option Q) : json := match o with Some q => JNum q | None => JNull end.
+Definition fnum_json (x : fnum) : json :=
+  match x with Fin q => JNum q | PInf => JStr tok_inf | NInf => JStr tok_ninf | FNaN => JStr tok_nan end.
+
+Definition json_fnum (j : json) : option fnum :=
+  match j with
+  | JNum q => Some (Fin q)
+  | JStr s => if s =? tok_inf then Some PInf else if s =? tok_ninf then Some NInf
+              else if s =? tok_nan then Some FNaN else None
+  | _ => None
+  end.
+
+Definition jopt_num (o : option fnum) : json := match o with Some x => fnum_json x | None => JNull end.
 
 Definition fitness_json (f : fitness) : json :=
   match f with
   | FSingle _ vals => JObj [("_values", JArr (map jopt_num vals)); (CP, JStr single_fit_path)]
-  | FMulti _ _ ws wv => JObj [("_weights", JArr (map JNum ws)); ("wvalues", JArr (map JNum wv));
+  | FMulti _ _ ws wv => JObj [("_weights", JArr (map fnum_json ws)); ("wvalues", JArr (map fnum_json wv));
                               (CP, JStr multi_fit_path)]
   end.
 
@@ -361,19 +382,23 @@ Definition save_individual (h : heap) (ind : individual) : res json * heap :=
              ("uid", JStr (i_uid ind));
              (CP, JStr individual_path)]))), h').
 
-Fixpoint opt_nums (l : list json) : res (list (option Q)) :=
+Fixpoint opt_nums (l : list json) : res (list (option fnum)) :=
   match l with
   | [] => Ok []
-  | JNum q :: t => bind (opt_nums t) (fun r => Ok (Some q :: r))
   | JNull :: t => bind (opt_nums t) (fun r => Ok (None :: r))
-  | _ :: _ => Raise Unmodelled
+  | j :: t => match json_fnum j with
+              | Some x => bind (opt_nums t) (fun r => Ok (Some x :: r))
+              | None => Raise Unmodelled
+              end
   end.
 
-Fixpoint nums (l : list json) : res (list Q) :=
+Fixpoint nums (l : list json) : res (list fnum) :=
   match l with
   | [] => Ok []
-  | JNum q :: t => bind (nums t) (fun r => Ok (q :: r))
-  | _ :: _ => Raise Unmodelled
+  | j :: t => match json_fnum j with
+              | Some x => bind (nums t) (fun r => Ok (x :: r))
+              | None => Raise Unmodelled
+              end
   end.
 
 (* fitness_from_json: any_from_json, then every list-valued field becomes a tuple again *)
@@ -467,14 +492,22 @@ Definition cmp_raises (a b : fitness) : bool :=
 Definition hash_raises (f : fitness) : bool :=
   match f with FMulti _ PList _ _ => true | _ => false end.
 
-Definition optQ_eqb (a b : option Q) : bool :=
-  match a, b with Some p, Some q => Q_eqb p q | None, None => true | _, _ => false end.
+(* nan equals nan here: this compares what is stored, not what python's == says *)
+Definition fnum_eqb (a b : fnum) : bool :=
+  match a, b with
+  | Fin p, Fin q => Q_eqb p q
+  | PInf, PInf | NInf, NInf | FNaN, FNaN => true
+  | _, _ => false
+  end.
+
+Definition optQ_eqb (a b : option fnum) : bool :=
+  match a, b with Some p, Some q => fnum_eqb p q | None, None => true | _, _ => false end.
 
 (* same class, same numbers (the container kind is not looked at) *)
 Definition fit_same (a b : fitness) : bool :=
   match a, b with
   | FSingle _ v, FSingle _ w => list_eqb optQ_eqb v w
-  | FMulti _ _ w1 v1, FMulti _ _ w2 v2 => list_eqb Q_eqb w1 w2 && list_eqb Q_eqb v1 v2
+  | FMulti _ _ w1 v1, FMulti _ _ w2 v2 => list_eqb fnum_eqb w1 w2 && list_eqb fnum_eqb v1 v2
   | _, _ => false
   end.
 
@@ -600,7 +633,7 @@ Definition fitness_eqb (a b : fitness) : bool :=
   match a, b with
   | FSingle k v, FSingle k' w => seqkind_eqb k k' && list_eqb optQ_eqb v w
   | FMulti a1 a2 w1 v1, FMulti b1 b2 w2 v2 =>
-      seqkind_eqb a1 b1 && seqkind_eqb a2 b2 && list_eqb Q_eqb w1 w2 && list_eqb Q_eqb v1 v2
+      seqkind_eqb a1 b1 && seqkind_eqb a2 b2 && list_eqb fnum_eqb w1 w2 && list_eqb fnum_eqb v1 v2
   | _, _ => false
   end.
 
